@@ -2,6 +2,7 @@ import TaskctlVerif.Model.Vars
 import TaskctlVerif.Model.VarsHeap
 import TaskctlVerif.Props.C09
 import TaskctlVerif.Props.C07
+import TaskctlVerif.Proofs.Derived
 /-!
 # C10 — template variables and CLI arguments reach commands with a fixed precedence
 
@@ -240,3 +241,96 @@ example : (runOps [] [.new, .set 0 "A" "runner", .set 0 "TASK_NAME" "stale", .ne
 
 end VarsHeap
 
+
+/-! ## variables whose value is a template over other variables (`CompileTask`'s rendering loop) -/
+namespace Derived
+open Layers
+
+/-- **Order independence.** The loop of `CompileTask` renders the values in place, in Go's map order. For a flat map
+(references name plain values or nothing) whatever the order `ks` - any list of keys, with or without repetitions - a
+loop that completes leaves, for every key it visited, the ORIGINAL value rendered against the ORIGINAL map, and every
+other entry as it was. -/
+theorem C10_derived_order_independent (m0 m' : Env Tmpl) (hf : Flat m0) (ks : List String) (h : loop m0 ks = some m') :
+    ∀ k, get m' k = if k ∈ ks then rendered m0 k else get m0 k :=
+  (loop_spec_gen m0 hf ks m0 m' (inv_refl m0) h).2
+
+/-- two orders over the same keys agree on every variable -/
+theorem C10_derived_any_two_orders (m0 m1 m2 : Env Tmpl) (hf : Flat m0) (ks1 ks2 : List String)
+    (hsame : ∀ k, k ∈ ks1 ↔ k ∈ ks2) (h1 : loop m0 ks1 = some m1) (h2 : loop m0 ks2 = some m2) :
+    ∀ k, get m1 k = get m2 k := by
+  intro k
+  rw [C10_derived_order_independent m0 m1 hf ks1 h1 k, C10_derived_order_independent m0 m2 hf ks2 h2 k]
+  by_cases hk : k ∈ ks1
+  · simp [hk, (hsame k).mp hk]
+  · have : k ∉ ks2 := fun h => hk ((hsame k).mpr h)
+    simp [hk, this]
+
+/-- **Undefined variable.** The loop fails - and the task with it, before any command - exactly when a visited
+variable refers with `{{ .Name }}` to a variable that is not defined (`render` is `none` for that form only; the `index`
+forms print a placeholder), whatever the order. -/
+theorem C10_derived_fails_iff (m0 : Env Tmpl) (hf : Flat m0) (ks : List String) :
+    loop m0 ks = none ↔ ∃ k ∈ ks, ∃ t, get m0 k = some t ∧ render m0 t = none :=
+  loop_none_gen m0 hf ks m0 (inv_refl m0)
+
+/-- **Precedence inside a derived value.** What a reference resolves to is decided by the variables of the execution
+itself: the stage's definition of the name, else the task's, else the runner's (configuration file, `--set`). -/
+theorem C10_derived_lookup_precedence (runner task stage : Env Tmpl) (x : String) :
+    get (execVars runner task stage) x = ((get stage x).or (get task x)).or (get runner x) := by
+  simp [execVars, get_merge, Option.or_assoc]
+
+theorem C10_derived_stage_wins (runner task stage : Env Tmpl) (x v a : String) (d : Option String) (h : get stage x = some [.lit v]) :
+    render (execVars runner task stage) [.lit a, .ref x d] = some (a ++ v) := by
+  have hg : get (execVars runner task stage) x = some [.lit v] := by
+    rw [C10_derived_lookup_precedence, h]; rfl
+  simp [render, resolve_lit _ x v d hg]
+
+theorem C10_derived_task_wins (runner task stage : Env Tmpl) (x v a : String) (d : Option String) (hs : get stage x = none)
+    (h : get task x = some [.lit v]) :
+    render (execVars runner task stage) [.lit a, .ref x d] = some (a ++ v) := by
+  have hg : get (execVars runner task stage) x = some [.lit v] := by
+    rw [C10_derived_lookup_precedence, hs, h]; rfl
+  simp [render, resolve_lit _ x v d hg]
+
+/-- a name that no execution's output is stored under keeps its value through any history of executions -/
+theorem history_get (r : Env Tmpl) (es : List Exec) (k : String) (h : ∀ e ∈ es, e.outName ≠ k) :
+    get (History r es) k = get r k := by
+  induction es generalizing r with
+  | nil => rfl
+  | cons e es ih =>
+    simp only [History]
+    rw [ih _ (fun e' he' => h e' (List.mem_cons_of_mem _ he'))]
+    have : k ≠ e.outName := fun hk => h e (by simp) hk.symm
+    simp [get_withKey, this]
+
+/-- **History independence.** Whatever ran before on the same runner - other tasks, other stages of the same task,
+direct runs - a value whose references are not names of stored outputs is rendered, in this execution, exactly as on
+a fresh runner: nothing of an earlier execution's task or stage variables is left behind. -/
+theorem C10_derived_history_independent (r task stage : Env Tmpl) (es : List Exec) (t : Tmpl)
+    (h : ∀ e ∈ es, e.outName ∉ refs t) :
+    render (execVars (History r es) task stage) t = render (execVars r task stage) t := by
+  apply render_congr
+  intro k hk d
+  have hg : get (History r es) k = get r k := history_get r es k (fun e he hek => h e he (hek ▸ hk))
+  simp [resolve, C10_derived_lookup_precedence, hg]
+
+-- the hypotheses are satisfiable: a flat map with two derived values, rendered in two different orders
+def exMap : Env Tmpl :=
+  [("Greeting", [.lit "hello-", .ref "Who" none]), ("Who", [.lit "s1"]),
+   ("Label", [.ref "deploy.target" (some "<no value>"), .lit "/", .ref "Who" none, .ref "absent" (some "")]),
+   ("deploy.target", [.lit "prod"])]
+
+example : flatB exMap = true := by decide
+example : Flat exMap := flatB_flat exMap (by decide)
+example : (loop exMap ["Greeting", "Who", "Label", "deploy.target"]).map (fun m => (get m "Greeting", get m "Label")) =
+    some (some [.lit "hello-s1"], some [.lit "prod/s1"]) := by decide
+example : (loop exMap ["deploy.target", "Label", "Who", "Greeting", "Who"]).map (fun m => (get m "Greeting", get m "Label")) =
+    some (some [.lit "hello-s1"], some [.lit "prod/s1"]) := by decide
+-- a reference to a variable nobody defines: the loop fails
+example : loop (("Broken", [.ref "Nobody" none]) :: exMap) ["Who", "Broken"] = none := by decide
+-- ... unless the reference is written with `index`, which prints a placeholder for a missing key
+example : (loop (("Lenient", [.ref "Nobody" (some "<no value>")]) :: exMap) ["Lenient"]).map (fun m => get m "Lenient") =
+    some (some [.lit "<no value>"]) := by decide
+-- a NON-flat map (a reference to a value that is itself a template): the order decides in the code; the model refuses
+example : flatB (("Outer", [.ref "Greeting" none]) :: exMap) = false := by decide
+
+end Derived
